@@ -3,6 +3,7 @@
 #include "core.h"
 #include "sim.h"
 #include <errno.h>
+extern "C" uint32_t qhashmurmur3_32(const void *data, size_t nbytes);
 
 // length-prefixed record, so that concatenations are unambiguous
 inline void enc(Bytes &out, const void *p, size_t n) {
@@ -36,3 +37,22 @@ inline int gen_vlen(Rng &r, int maxlen) {
     default: return r.range(1, maxlen);
     }
 }
+
+// pairs of distinct keys with the same full 32-bit hash, found once per process by a birthday search with the library's own
+// hash function (nothing hard-coded: if the hash changes the pairs change with it)
+inline const std::vector<std::pair<Bytes, Bytes>> &collision_pairs() {
+    static std::vector<std::pair<Bytes, Bytes>> pairs;
+    static bool done = false;
+    if (done) return pairs;
+    done = true;
+    std::map<uint32_t, uint32_t> seen;
+    for (uint32_t i = 0; i < 400000 && pairs.size() < 6; i++) {
+        char b[16]; int n = snprintf(b, sizeof b, "c%u", i);
+        uint32_t hsh = qhashmurmur3_32(b, (size_t)n);
+        auto it = seen.find(hsh);
+        if (it != seen.end()) { char o[16]; snprintf(o, sizeof o, "c%u", it->second); pairs.push_back({Bytes(o), Bytes(b)}); }
+        else seen[hsh] = i;
+    }
+    return pairs;
+}
+
